@@ -132,14 +132,14 @@ def h_filter_bookkeeping(preset):
         # model's ends), and model 1 may share a read with model 0
         offs = [(0, 0), (80, 0), (0, 80), (80, 80)]
         for k in range(2):
-            s_ = 1050 if k == 0 else [1050, 1000, 1100, 1046][g.choice("model1_start", 4)]
-            e_ = 3150 if k == 0 else [3150, 3200, 3100, 3154][g.choice("model1_end", 4)]
+            s_ = 1050 if k == 0 else [1050, 700, 1100, 1046][g.choice("model1_start", 4)]      # 700: far beyond every "similar ends" tolerance
+            e_ = 3150 if k == 0 else [3150, 3200, 3050, 3154][g.choice("model1_end", 4)]
             m = TranscriptModel("chr1", "+", "transcript%d.chr1.nnic" % (k + 1), "novel_gene_chr1_9", [(s_, 1200), (2000, 2150), (3000, e_)],
                                 TranscriptModelType.novel_not_in_catalog)
             m.intron_path = tuple(introns)
             models.append(m)
-            o = offs[g.choice("model%d_read_ends_inside" % k, 4)]
-            ra = Obj(read_id="m%d_r" % k, read_group="NA", mapping_quality=60, corrected_exons=[(s_ + o[0], 1200), (2000, 2150), (3000, e_ - o[1])])
+            o = (offs if k == 0 else [(0, 0), (360, 0), (0, 80), (360, 80)])[g.choice("model%d_read_ends_inside" % k, 4)]
+            ra = Obj(read_id="m%d_r" % k, read_group="NA", mapping_quality=60, corrected_exons=[(min(s_ + o[0], 1150), 1200), (2000, 2150), (3000, e_ - o[1])])
             call(g, c.save_assigned_read, ra, m.transcript_id)
             if k == 1 and bool(g.bool("model1_shares_a_read_with_model0")):
                 sh = Obj(read_id="shared_read", read_group="NA", mapping_quality=60, corrected_exons=[(1100, 1200), (2000, 2150), (3000, 3100)])
